@@ -294,7 +294,13 @@ impl<D: DataMut> ReaderFrom for MatZnx<D> {
         let new_cols_out: usize = reader.read_u64::<LittleEndian>()? as usize;
         let len: usize = reader.read_u64::<LittleEndian>()? as usize;
 
-        let expected_len: usize = new_rows * new_cols_in * new_n * new_cols_out * new_size * size_of::<i64>();
+        let expected_len: usize = new_rows
+            .checked_mul(new_cols_in)
+            .and_then(|x| x.checked_mul(new_n))
+            .and_then(|x| x.checked_mul(new_cols_out))
+            .and_then(|x| x.checked_mul(new_size))
+            .and_then(|x| x.checked_mul(size_of::<i64>()))
+            .unwrap_or(usize::MAX);
         if expected_len != len {
             return Err(std::io::Error::new(
                 std::io::ErrorKind::InvalidData,
